@@ -143,10 +143,12 @@ pub(crate) fn run(seed: u64, n: u64, out: &mut Out) {
         // the latest hashes each peer has delivered (after the finalized check point)
         let fin_number = fin * interval;
         let latest_len = rng.range(0, (tip - fin_number).min(2 * interval + 3));
+        let mut peer_hashes: Vec<Vec<packed::Byte32>> = Vec::new();
         for (i, id) in ids.iter().enumerate() {
             let l = if i == 0 || rng.chance(2, 3) { latest_len } else { rng.range(0, latest_len + 1) };
             let mut hs: Vec<packed::Byte32> = (1..=l).map(|j| bc.fhashes[(fin_number + j) as usize].clone()).collect();
             if i > 0 && rng.chance(1, 5) && !hs.is_empty() { let j = rng.below(hs.len() as u64) as usize; hs[j] = other.fhashes[(fin_number + 1 + j as u64).min(other.tip()) as usize].clone(); }
+            peer_hashes.push(hs.clone());
             net.peers.mock_latest_block_filter_hashes(*id, fin_number, hs);
         }
         // where filter syncing stands
@@ -211,6 +213,16 @@ pub(crate) fn run(seed: u64, n: u64, out: &mut Out) {
             let (cached_index, cached) = net.peers.get_cached_block_filter_hashes();
             let cached_cp = net.storage.get_check_points(cached_index, 1).first().cloned();
             let latest = net.peers.get_latest_block_filter_hashes(fin_index);
+            // the hashes the client trusts after the finalized check point: each one reported by at least `required` proven peers
+            // that also agree on everything before it
+            let mut quorum_problem: Option<String> = None;
+            {
+                let mut agreeing: Vec<&Vec<packed::Byte32>> = peer_hashes.iter().collect();
+                for (j, h) in latest.iter().enumerate() {
+                    agreeing.retain(|v| v.get(j) == Some(h));
+                    if agreeing.len() < required { quorum_problem = Some(format!("[C06-latest-hash-without-quorum] the filter hash trusted for block {} is reported by {} proven peer(s), {} required", fin_index as u64 * interval + 1 + j as u64, agreeing.len(), required)); break; }
+                }
+            }
             let db_pending = net.storage.get_earliest_matched_blocks().is_some();
             let mem_empty = net.peers.matched_blocks().read().map(|g| g.is_empty()).unwrap_or(true);
             let records_before = matched_records(&net);
@@ -268,6 +280,7 @@ pub(crate) fn run(seed: u64, n: u64, out: &mut Out) {
                     Val::b(mem_empty_after), Val::opt(next.map(Val::n))])
             };
             if r.panicked { problems.push(format!("[C10-filter-panic] BlockFilters made the handler panic: {}", super::last_panic())); }
+            if let Some(q) = quorum_problem { problems.push(q); }
             // ---- oracles (from the generated chain, independent of the model) ----
             // authenticity: progress only over filters that are the chain's own filters at those heights
             if min_after > min_before {
@@ -289,6 +302,16 @@ pub(crate) fn run(seed: u64, n: u64, out: &mut Out) {
                 // the periodic tick recovers matched blocks from the store
                 let t = net.fp_tick(GET_BLOCK_FILTERS_TOKEN);
                 pump_downloads(&mut net, &bc, t.sent, &mut problems);
+            }
+            if what == "substituted-block-hash" && hashes.iter().any(|h| h == &other.chain.headers[other.tip() as usize].hash()) && min_after > min_before {
+                // the named block is not on the proven chain, so it can never be proven; the attacker sends its body anyway
+                let before: Vec<u64> = net.storage.get_filter_scripts().iter().map(|s| s.block_number).collect();
+                let rr = net.sp_recv(peer, send_block_message(other.chain.block(other.tip())));
+                if rr.panicked { problems.push(format!("[C10-handler-panic] SendBlock panicked: {}", super::last_panic())); }
+                let after: Vec<u64> = net.storage.get_filter_scripts().iter().map(|s| s.block_number).collect();
+                if after != before {
+                    problems.push(format!("[C06-unproven-block-indexed] a SendBlock for a matched hash that was never proven (a block of another branch) was processed: script numbers {:?} -> {:?}", before, after));
+                }
             }
             for ss in net.storage.get_filter_scripts() {
                 let sid = pool.iter().position(|s| s == &ss.script).unwrap();
